@@ -545,10 +545,14 @@ def _dispatch(ctx, kind: str, arg, n: int) -> None:
 
 
 def run(ctx) -> None:
-    shorts = SHORT_STREAMS if not ctx.quick else SHORT_STREAMS[:6]
+    if ctx.quick:
+        # 14, 12, 14 and 12 octets: 8192 + 2048 + 8192 + 2048 boundary sets
+        shorts = [SHORT_STREAMS[0], {"items": [M6_VERSION, V6_ROUTING], "tail": NONE}, SHORT_STREAMS[4], {"items": [V6_DESCR, M6_UNKNOWN], "tail": NONE}]
+    else:
+        shorts = SHORT_STREAMS
     jobs = [("short", c, 0) for c in shorts]
-    jobs += [("pairs", None, ctx.n(6, 40)), ("pairs", None, ctx.n(6, 40))]
-    jobs += [("random", None, ctx.n(150, 1500)), ("random", None, ctx.n(150, 1500))]
+    jobs += [("pairs", None, ctx.n(4, 40)), ("pairs", None, ctx.n(4, 40))]
+    jobs += [("random", None, ctx.n(120, 1500)), ("random", None, ctx.n(120, 1500))]
     jobs += [("udp", None, ctx.n(300, 3000)), ("big", None, 0)]
     parallel(ctx, _dispatch, jobs, procs=ctx.n(8, 16))
     ctx.notes["budget"] = f"{A_STEPS} + {B_STEPS}*octets_fed_so_far sys.monitoring steps per data_received / datagram_received call"
